@@ -15,6 +15,8 @@ TB = [
     "hand-written model of the index classes (LinearIndex, LazyLinearIndex, MultiIndex, ZipFileLinearIndex with/without "
     "manifest, StandaloneManifestIndex over CSV and SQLite manifests, SBT with/without manifest, LCA_Database, SqliteIndex), "
     "tied to /repo by the select stream (differential testing)",
+    "LCA_Database._signatures (cached_property) is modelled as an explicit cache filled by signatures()/find and left alone by select; "
+    "LCA insert (the only invalidation) is outside the stream",
     "md5 is hashlib.md5 over str(ksize)+mins, applied by the harness and compared with the real md5sum() of every sketch; "
     "strings are latin-1 (one code point per character)",
     "not modelled: scores and thresholds of searches (C06); searches use a Jaccard query at threshold 0 over tiny hash values "
